@@ -588,7 +588,16 @@ func (g *FuncGen) execConvert(x *ssa.Convert) {
 	_, ti := isInt(to)
 	switch {
 	case fi && ti:
-		g.setVal(x, "Int", g.sc.wrapExact(to, v))
+		fb, _ := isInt(from)
+		tb, _ := isInt(to)
+		flo, fhi, _, _ := intRange(fb)
+		tlo, thi, _, _ := intRange(tb)
+		if flo.Cmp(tlo) >= 0 && fhi.Cmp(thi) <= 0 {
+			// widening (or same-range) conversion: value-preserving
+			g.vals[x] = v
+		} else {
+			g.setVal(x, "Int", g.sc.wrapExact(to, v))
+		}
 	case fi && isFloat(to):
 		g.setVal(x, "Real", fmt.Sprintf("(to_real %s)", v))
 	case isFloat(from) && ti:
